@@ -33,6 +33,27 @@ def WFTerm : Term → Prop
 
 instance : DecidablePred WFTerm := fun t => by cases t <;> unfold WFTerm <;> infer_instance
 
+/-- Terms that have an RDF term identity: everything except the blank node without identifier
+    (`rdf.BlankNode{}`), which is not `TermEquals` to itself. Literals of ANY shape qualify — a tag on
+    an untagged datatype, no tag on `rdf:langString`, … — : their identity is (datatype, lexical form,
+    tag presence, tag kind, language, direction). This is the hypothesis of the equality and matcher
+    theorems; `WFTerm` (needed only where the store's key matters) implies it. -/
+def HasIdentity : Term → Prop
+  | .bnode none => False
+  | _ => True
+
+instance : DecidablePred HasIdentity := fun t => by
+  cases t with
+  | bnode id => cases id <;> unfold HasIdentity <;> infer_instance
+  | iri _ => unfold HasIdentity; infer_instance
+  | lit _ => unfold HasIdentity; infer_instance
+
+theorem WFTerm.hasIdentity {t : Term} (h : WFTerm t) : HasIdentity t := by
+  cases t with
+  | bnode id => cases id <;> simp_all [WFTerm, HasIdentity]
+  | iri _ => simp [HasIdentity]
+  | lit _ => simp [HasIdentity]
+
 def WFGraphName : Option Term → Prop
   | none => True
   | some t => WFTerm t
